@@ -58,10 +58,28 @@ AsCodedListRoundTrip == IsD => LET ds == DsOf(inp) IN UnflattenAsCodedList(FlatO
 AsCodedListOnUniform == (IsD /\ Uniform(inp.label)) => LET ds == DsOf(inp) IN UnflattenAsCodedList(FlatOf(ds), ShotsOf(ds), LabelsOf(ds)) = ds
 AsCodedListOnlyUniform == (IsD /\ ~Uniform(inp.label)) => LET ds == DsOf(inp) IN UnflattenAsCodedList(FlatOf(ds), ShotsOf(ds), LabelsOf(ds)) # ds
 
+\* ------------------------------------------------------------------ a whole tomography through the exchange format
+\* exact statistics of the standard process tomography (tester states x tester POVMs, states slowest) of a catalogue
+\* gate, as ONE flat vector: what the other package hands over; the linear estimate on them is the gate itself, which
+\* travels back as its other-convention Choi matrix (EmitCase: tomo / there)
+TesterStates == <<"z0", "z1", "x0", "y0">>
+TesterPovms == <<"x", "y", "z">>
+ProbOf(G, i, j, k) == Born(QPovm(TesterPovms[j])[k], ApplyH(G, QState(TesterStates[i])), NuOf(<<2>>))
+TomoFlat(G) == ConcatSeqs([n \in 1..(Len(TesterStates) * Len(TesterPovms)) |->
+                  LET i == ((n - 1) \div Len(TesterPovms)) + 1 j == ((n - 1) % Len(TesterPovms)) + 1
+                  IN [k \in 1..2 |-> ProbOf(G, i, j, k)]])
+StateFlat(x) == ConcatSeqs([j \in 1..Len(TesterPovms) |-> [k \in 1..2 |-> Born(QPovm(TesterPovms[j])[k], x, NuOf(<<2>>))]])
+\* every schedule's segment is a probability distribution (the flat vector is cut every two entries)
+TomoNormalised == (kind = "cat") =>
+    LET f == TomoFlat(QGate(inp)) IN \A n \in 1..(Len(f) \div 2) : RAdd(f[2 * n - 1], f[2 * n]) = ROne /\ RLe(RZero, f[2 * n - 1]) /\ RLe(RZero, f[2 * n])
+
 EmitCase == IF ~Emit THEN TRUE
     ELSE IF IsG THEN PrintT(ToJson([kind |-> kind, sys |-> S, name |-> IF kind = "cat" THEN inp ELSE "-",
                                     G |-> IF kind = "gate" THEN inp ELSE QGate(inp),
-                                    here |-> ChoiStd(hs, DD), there |-> ChoiOther(hs, DD)]))
+                                    here |-> ChoiStd(hs, DD), there |-> ChoiOther(hs, DD),
+                                    tomo |-> IF kind = "cat" THEN TomoFlat(QGate(inp)) ELSE <<>>,
+                                    qst |-> IF kind = "cat" THEN StateFlat(ApplyH(QGate(inp), QState("x0"))) ELSE <<>>,
+                                    rho |-> IF kind = "cat" THEN FromH(ApplyH(QGate(inp), QState("x0")), BasisOf(S)) ELSE <<>>]))
     ELSE IF IsD THEN LET ds == DsOf(inp) IN
                      PrintT(ToJson([kind |-> "dists", label |-> inp.label, common |-> inp.common, shots |-> ShotsOf(ds), flat |-> FlatOf(ds),
                                     want |-> Unflatten(FlatOf(ds), ShotsOf(ds), LabelsOf(ds)),
